@@ -441,8 +441,11 @@ def trace_nodes(events, t0):
     return ts, kinds, report
 
 
-def reference_on_trace(case, events, smooth=False, perturb=0.0, mp=True):
-    """Reference filter/smoother on the recorded step sequence merged with the checkpoints."""
+def reference_on_trace(case, events, smooth=False, perturb=0.0, mp=True, requested=None):
+    """Reference filter/smoother on the recorded step sequence merged with the checkpoints.
+    requested=(times, eps): place the checkpoints from the requested times and the recorded accepted steps alone (a requested
+    time within eps of the end of the first step that reaches it is that step end, otherwise an interior node), without relying
+    on the recorded interpolation calls."""
     cfg = case["cfg"]
     field, C, tc, grid, base_vec = case_arrays(case)
     spec = make_spec(case, mp=mp)
@@ -461,6 +464,21 @@ def reference_on_trace(case, events, smooth=False, perturb=0.0, mp=True):
             report_t.append(float(e[1])), report_kind.append("ckpt")
         elif e[0] == "interp_at":
             report_t.append(ts[-1]), report_kind.append("at")
+    if requested is not None:
+        times, eps = requested
+        ends = [float(grid[0])] + [e[1] + e[2] for e in events if e[0] == "error" and e[3] >= 1.0]
+        ts, kinds = list(ends), ["init"] + ["step"] * (len(ends) - 1)
+        report_t, report_kind = [float(grid[0])], ["init"]
+        for t in [float(x) for x in times[1:]]:
+            j = next((k for k, b in enumerate(ends) if b + eps >= t), None)
+            if j is None:
+                raise common.Inconclusive("a requested time lies beyond the recorded steps")
+            if ends[j] > t + eps:
+                pos = ts.index(ends[j])
+                ts.insert(pos, t), kinds.insert(pos, "ckpt")
+                report_t.append(t), report_kind.append("ckpt")
+            else:
+                report_t.append(ends[j]), report_kind.append("at")
     if any(ts[i + 1] <= ts[i] for i in range(len(ts) - 1)):
         raise common.Inconclusive("recorded nodes are not strictly increasing (checkpoints closer than float spacing)")
     try:
